@@ -70,6 +70,73 @@ def tls_sweep(variant):
     return out
 
 
+def _want_table(conn):
+    K = conn.keys
+    want = {}
+    for side, srv in (("client", False), ("server", True)):
+        want[f"{side}_initial_key"], want[f"{side}_initial_iv"], want[f"{side}_initial_hp"] = K["initial"][srv].key, K["initial"][srv].iv, K["initial"][srv].hp
+        want[f"{side}_handshake_key"], want[f"{side}_handshake_iv"], want[f"{side}_handshake_hp"] = K["handshake"][srv].key, K["handshake"][srv].iv, K["handshake"][srv].hp
+        want[f"{side}_application_key"], want[f"{side}_application_iv"], want[f"{side}_application_hp"] = K["app"][srv][0].key, K["app"][srv][0].iv, K["app"][srv][0].hp
+    if "early" in K:
+        want["client_early_key"], want["client_early_iv"], want["client_early_hp"] = K["early"][False].key, K["early"][False].iv, K["early"][False].hp
+    return want
+
+
+def evaluate_quic_concurrent(spec):
+    """two QUIC connections whose datagrams alternate in the capture: each session's installed key table is its own connection's RFC 9001
+    schedule, and every packet of either connection is opened with the key its sender used"""
+    import tlexport.quic.quic_decryptor as qd
+    from ipaddress import ip_address
+    used = []
+    orig = qd.QuicDecryptor.decrypt
+
+    def rec(self, ciphertext, packet_number, associated_data, isserver):
+        key, iv = (self.server_key, self.server_iv) if isserver else (self.client_key, self.client_iv)
+        out = orig(self, ciphertext, packet_number, associated_data, isserver)
+        used.append((bool(isserver), bytes(key), bytes(iv), int.from_bytes(packet_number, "big")))
+        return out
+    qd.QuicDecryptor.decrypt = rec
+    try:
+        b = scenario.build(spec)
+        o = oracle.run_e2e(b, engine.workdir())
+    finally:
+        qd.QuicDecryptor.decrypt = orig
+    f = oracle.base_failure(o)
+    if f:
+        return {"sig": f, "detail": (o.run.exc or "")[-300:], "nontrivial": True}
+    m = runner.tlx_main()
+    bad = []
+    for ci, conn in enumerate(b.conns):
+        ep = spec["conns"][ci]["ep"]
+        mine = [q for q in m.quic_sessions if bytes(q.client_ip) == ip_address(ep["cip"]).packed and q.client_port == ep["cport"]]
+        if len(mine) != 1:
+            bad.append(f"connection {ci}: {len(mine)} sessions")
+            continue
+        for nm, w in _want_table(conn).items():
+            if _b(mine[0].keys.get(nm)) != w:
+                bad.append(f"connection {ci}: {nm}")
+    sent = sorted((e["srv"], e["key"], e["iv"], e["pn"]) for conn in b.conns for e in conn.pkt_log)
+    if not bad and sorted(used) != sent:
+        bad.append(f"packets opened with their sender's keys: {len(set(used) & set(sent))} of {len(sent)}")
+    sig = "concurrent quic connections: installed key material differs from RFC 9001: " + bad[0].split(": ")[-1].split("_")[-1] if bad else None
+    return {"sig": sig, "detail": str(bad[:6]), "nontrivial": True, "labels": ["quic-concurrent"], "key": "qc%s" % spec["conns"][0]["seed"]}
+
+
+def quic_concurrent_specs():
+    out = []
+    data = lambda d, n: {"op": "data", "d": d, "pk": [{"fr": [["stream", 0, n, None, False, True, None]], "gap": 0, "pnl": 0}]}
+    i = 0
+    for sa in (0x1301, 0x1302, 0x1303, 0x1304):
+        for sb in (0x1301, 0x1303, 0x1302):
+            for ku in (False, True):
+                steps = [data(0, 10), data(1, 11)] + ([{"op": "ku", "d": 0}, data(0, 12), data(1, 13)] if ku else []) + [data(0, 14), data(1, 15)]
+                conns = [{"kind": "quic", "seed": 5100 + 2 * i + j, "suite": su, "steps": steps, "early": (i + j) % 2, "retry": bool((i + j) % 3 == 0),
+                          "ep": scenario.default_ep(80 + 2 * (i % 40) + j)} for j, su in enumerate((sa, sb))]
+                out.append({"conns": conns, "order": [0, 1], "tseed": 1 + i})
+                i += 1
+    return out
+
+
 def evaluate_quic(spec):
     import tlexport.quic.quic_decryptor as qd
     used = []
@@ -207,7 +274,8 @@ FN = st.builds(lambda fn, seed, slen, n: {"fn": fn, "seed": seed, "slen": slen, 
 
 def stages(tier):
     quick = tier == "quick"
-    st_ = [Stage("tls-sweep", evaluate_tls, specs=tls_sweep(0)), Stage("quic-grid", evaluate_quic, specs=quic_grid())]
+    st_ = [Stage("tls-sweep", evaluate_tls, specs=tls_sweep(0)), Stage("quic-grid", evaluate_quic, specs=quic_grid()),
+           Stage("quic-concurrent-connections", evaluate_quic_concurrent, specs=quic_concurrent_specs())]
     if not quick:
         for v in range(1, 20):
             st_.append(Stage(f"tls-sweep-v{v}", evaluate_tls, specs=tls_sweep(v)))
